@@ -204,7 +204,7 @@ func vfC15BuildNetConf(nc vfC15NetConf, forSetup bool) *rpc.NetConf {
 	return out
 }
 
-func vfC15RunCNI(c *vt.Ctx, s vfC15CNIScenario) {
+func vfC15RunCNI(c g.Sink, s vfC15CNIScenario) {
 	c.Label("kind:" + s.Kind)
 	args := &skel.CmdArgs{ContainerID: "abc", Netns: "/proc/self/ns/net", IfName: string(s.IfName),
 		Args: string(s.Args), Path: "/opt/cni/bin", StdinData: s.Stdin}
@@ -280,4 +280,4 @@ func vfC15RunCNI(c *vt.Ctx, s vfC15CNIScenario) {
 	}
 }
 
-func TestVerifC15CNIPlugin(t *testing.T) { vt.Run(t, vfC15GenCNI, g.NoPanic(vfC15RunCNI)) }
+func TestVerifC15CNIPlugin(t *testing.T) { vt.Run(t, vfC15GenCNI, g.NoPanic(g.Adapt(vfC15RunCNI))) }
